@@ -25,7 +25,7 @@ CHECKS = {
  "C04": ("model_checking",
          "symbolic protocol state machine spec/sm/Bake.tla (BMQV, BSTS, BPACE, BAUTH x kca/kcb x one attacker action) model-checked exhaustively; every terminal case replayed step by step and through RunA/RunB on the real code with concrete keys; altered points classified by TLC with exact curve arithmetic before the prediction is selected (Trace_Bake)",
          "Honest runs end with equal keys and all steps OK; a tampered message is rejected by the party that requires confirmation at the predicted step with the predicted error class, and without confirmation the keys differ; exhaustive over protocol x flags x attacker action (message part x kind), concrete octet positions and curves per tier.",
-         "Trusted: TLC, the symbolic model of the headers' step contracts, the C driver; derived key VALUES of honest runs are not recomputed (only agreement), negated points are accepted by design where only x-coordinates are used.",
+         "Trusted: TLC, the symbolic model of the headers' step contracts, the C driver; derived key VALUES of honest runs are not recomputed (only agreement), negated points are accepted by design where only x-coordinates are used. Hello strings of different lengths (or absent) and short reads of the block-wise message collection are part of the replayed set-ups.",
          "DESIGN.md section 4, C04"),
  "C08": ("model_checking",
          "TLA+ specification of the DER profile of der.h and of the OID / APDU / hex / base64 / decimal codecs (spec/ref/Der.tla, Codecs.tla) as partial functions with consumed length; TLC evaluates the decoders on ALL short strings (two-level enumeration, per-prefix aggregates compared with the real decoders, differing prefixes expanded) and on structure-aware mutants recorded from the real code (Trace_Codec)",
@@ -45,7 +45,7 @@ CHECKS = {
  "C05": ("exploration",
          "TLA+ big-natural and GF(2)[x] libraries (spec/lib/BigNat.tla, GF2Poly.tla) and one line of mathematics per public function of word / ww / zz / zm-qr / pp / gf2 (spec/ref/ZZ.tla, WW.tla, PP.tla, WordOps.tla), anchored by 138 TLC-evaluated identities; TLC recomputes every recorded call of the real functions (Trace_Arith), both editions of every SAFE/FAST pair called by name, in the 64- and 32-bit word builds",
          "157 functions on enumerated structure: operand lengths 0..21 words crossing every algorithm switch, boundary-alphabet words, multiples of the modulus with quotients drawn from the boundary alphabet, Knuth-D over-estimate cases, 17 modulus classes reaching every reduction strategy of zmCreate, documented aliasing patterns; all 16-bit helpers exhaustively. Values AND carries/borrows/flags are compared; modular results must be fully reduced.",
-         "Trusted: TLC, the header formulas as transcribed (anchored), the C driver. Longer operands are a seeded subset of the enumerated classes; The result arrays carry canaries beyond the documented output length (an overrun is a rejected line). ppMinPolyMod has no specification; zzRandMod is judged for its range only.",
+         "Trusted: TLC, the header formulas as transcribed (anchored), the C driver. Longer operands are a seeded subset of the enumerated classes; The result arrays carry canaries beyond the documented output length (an overrun is a rejected line). ppMinPolyMod has no specification; zzRandMod is judged for its range and for the octets it draws (a multiple of O_OF_B(l), zz.h). The pure Montgomery ring of zmMontCreate is driven for bits(mod) <= l <= B_OF_W(n), the range the implementation asserts (the header's inequality is read accordingly, DESIGN 0.2).",
          "DESIGN.md section 4, C05"),
  "C06": ("model_checking",
          "the affine chord-and-tangent group law as TLA+ definition (spec/ref/ECp.tla, instantiated over TLC integers and over BigNat), validated by TLC as a group on complete small curves; TLC emits COMPLETE tables (points, addition, negation, doubling, tripling, all multiples up to 2*order+2, on-curve decisions for all coordinate pairs, SWU) per curve (Gen_ECSmall) and the same generic C functions are run over all of them in the assert-enabled ASan builds for 64- and 32-bit words; sampled calls on multi-word and standard curves recomputed by TLC (Trace_EC)",
@@ -75,7 +75,7 @@ CHECKS = {
  "C12": ("exploration",
          "condition lists of the standards as TLA+ predicates (spec/ref/Validators.tla) over BigNat / GF2Poly / ECp, primality by deterministic Miller-Rabin base sets and TLC-checked n-1 certificates (spec/ref/Pri.tla), anchored by 107 TLC-evaluated vectors; TLC judges every recorded decision of the real validators (Trace_Valid): accept iff every condition holds, each rejection justified by a certificate TLC verifies (factor, remainder, recomputed belt-hash, curve equation)",
          "Exhaustive: all 10^6 digit dates and every non-digit octet at each position; priIsPrime* / priNextPrime* on [0,2^16) and around 2^32 in 1- and 2-word forms with several factor-base sizes; all binary polynomials of degree <= 12; every (x,y) on complete tiny curves incl. coordinates >= p and the twist. Enumerated: every standard parameter set of bign, bign96, g12s, stb99, pfok, dstu with each single-field perturbation; key classes d in {0,1,q-1,q,q+1}; Carmichael numbers, strong pseudoprimes, products of primes near 2^32 / 2^64; chain-rule boundaries of stb99 / pfok seeds.",
-         "Trusted: TLC, the transcription of the standards' condition lists, python only SEARCHES certificates (TLC verifies them). Primality of a few large standard moduli for which no n-1 certificate was found is assumed (listed in the evidence).",
+         "Trusted: TLC, the transcription of the standards' condition lists, python only SEARCHES certificates (TLC verifies them). bignParamsGen is walked over its first seeds only (seed sequence, b = B mod p, which seeds reach calc_q): completing a generation needs point counting, which is outside the library. Primality of a few large standard moduli for which no n-1 certificate was found is assumed (listed in the evidence).",
          "DESIGN.md section 4, C12"),
  "C13": ("exploration",
          "TLA+ reference semantics of STB 34.101.60 over GF(2)[x] (spec/ref/Bels.tla: shares, CRT recovery, irreducibility, minimal polynomial) anchored by 84 TLC-evaluated vectors; TLC recomputes every recorded share / recovery of the real library (Trace_Bels) and checks recovered = secret for every subset of at least threshold shares in every order enumerated",
